@@ -57,6 +57,16 @@ fn cases(tier: Tier) -> Vec<Case> {
             out.push(Case::Rem { a: a.clone(), b: b.clone() });
         }
     }
+    // remainders with very large quotients (|a/b| from 1e13 to 1e27: beyond 2^53 and beyond 2^63)
+    for (ka, av) in [2.5e9, -7e8, 3.0e15, 6.5e3].iter().enumerate() {
+        for (kb, bv) in [1e-12, -4e-11, 3.0e-5, -2.5e-10].iter().enumerate() {
+            for a in contents(*av, ka) {
+                for b in contents(*bv, kb + 2) {
+                    out.push(Case::Rem { a: a.clone(), b });
+                }
+            }
+        }
+    }
     // sums: every sequence of length 0..=L over a small pool
     let sp: Vec<NumSpec> = vec![
         contents(0.5, 0)[1].clone(),
@@ -84,10 +94,24 @@ fn cases(tier: Tier) -> Vec<Case> {
         out.push(Case::Sum { xs: s.iter().map(|k| sp[*k].clone()).collect() });
     }
     // longer sums on a menu of lengths: rotating through the pool from every starting item
-    for len in [7usize, 8, 9, 16, 17, 33] {
-        for start in 0..sp.len() {
-            for step in [1usize, 2, 3] {
-                out.push(Case::Sum { xs: (0..len).map(|i| sp[(start + i * step) % sp.len()].clone()).collect() });
+    // (the pool is widened by terms carrying all three names in several stored orders, so that a term can carry
+    // every name of the sequence in an order different from first appearance)
+    let mut spl = sp.clone();
+    for (k, names) in [vec![2usize, 1, 0], vec![0, 2, 1], vec![1, 2], vec![2, 0, 1]].into_iter().enumerate() {
+        let n = names.len();
+        let g: Vec<f64> = (0..n).map(|i| gen_val(k * 3 + i + 11)).collect();
+        let mut h = vec![0.0; n * n];
+        for i in 0..n {
+            for j in 0..n {
+                h[i * n + j] = gen_val(k + 5 + i.min(j) * 3 + i.max(j));
+            }
+        }
+        spl.push(NumSpec { v: 0.25 + k as f64, names, g, h });
+    }
+    for len in [7usize, 8, 9, 15, 16, 17, 31, 32, 33, 34, 64, 65, 130] {
+        for start in 0..spl.len() {
+            for step in [1usize, 2, 4, 5] {
+                out.push(Case::Sum { xs: (0..len).map(|i| spl[(start + i * step) % spl.len()].clone()).collect() });
             }
         }
     }
@@ -193,7 +217,8 @@ pub fn check(case: &Case, idx: u64, acc: &mut Acc) {
             // one exactly) "a - b*trunc(a/b)" has two defensible floating-point values that differ by |b|:
             // the exact remainder (fmod) and the rounded formula. Such pairs are out of domain.
             let formula = a.v - b.v * q.trunc();
-            if ((a.v % b.v) - formula).abs() > 0.25 * b.v.abs() {
+            // (a quotient beyond 2^52 is an integer already: truncation is the identity and there is no such ambiguity)
+            if q.abs() < 4.5e15 && ((a.v % b.v) - formula).abs() > 0.25 * b.v.abs() {
                 acc.skip();
                 return;
             }
@@ -411,7 +436,7 @@ pub fn run(ctx: &Ctx, replay_file: Option<String>) -> ! {
         "every pair of numbers from (value table x 4 derivative contents) for comparisons and remainder in the forms \
          dual-dual / dual-float / float-dual, on Dual, Dual2 and Number; abs and the zero/one identities on every \
          number; every sequence of length 0..L over a 5-number pool for sum (items realised both as fresh numbers and as \
-         clones of one object), plus rotating sequences of length 7, 8, 9, 16, 17, 33. Non-trivial: comparisons of unequal \
+         clones of one object), plus rotating sequences of length 7, 8, 9, 15, 16, 17, 31..34, 64, 65, 130 over a pool widened by numbers carrying all three names in several stored orders; remainders with quotients of 1e13 .. 1e27 (beyond 2^53 and 2^63). Non-trivial: comparisons of unequal \
          values with derivatives present, abs of negative numbers with derivatives, remainders with negative \
          non-integer quotient and derivatives, sums of >= 2 terms, identities on numbers that carry variables. \
          Oracle: float comparison; RefDual (by-name value/gradient/Hessian) for abs, rem = a - b*trunc(a/b), left fold \
